@@ -50,6 +50,7 @@ func checkC03(r *Run) {
 	r.Sample(map[string]string{"case": cases[len(cases)-5].Body, "sig": cases[len(cases)-5].Sig})
 	runPacks(r, cases, 1500, minifyVariants(false), "minify", nil, &st)
 	r.Count("exprtab_cases", len(cases))
+	c03Subst(r)
 
 	// random programs: one program per compilation unit
 	pool := r.Pool()
